@@ -1,11 +1,15 @@
 (* Property C20: path utilities keep their contracts.
    Statements only; the proofs are in coq/proofs/PathUtils*.v, the models in coq/model/PathUtils.v.
-   _partial : proves part of the property's clause (the comment says what is missing);
-   _refuted : the clause is false of the faithful model (witness replayed on the real code by checks/C20.py). *)
+   The models mirror clipper.h with the four C20 repairs (triage/C20-*.patch): RDP keeps the vertex the shrunk `end`
+   stops at and no longer un-keeps the last vertex; SimplifyPath handles 3-point paths and clamps epsilon^2 below
+   MAX_DBL; TrimCollinear returns an open 2-point path as it is.  The inputs that refuted the clauses before the
+   repairs are kept as corpus cases (corpus/C20/boundary.case) and as Examples in proofs/PathUtilsInst.v.
+   _partial : proves part of the property's clause (the comment says what is missing). *)
 From Coq Require Import ZArith List Bool Floats Reals.
 From Clip Require Import base.Geom base.FloatModel model.PathUtils.
 From Clip Require Import proofs.PathUtilsBase proofs.PathUtilsFloat proofs.PathUtilsTrim proofs.PathUtilsFlags
-  proofs.PathUtilsSimplify proofs.PathUtilsRdp proofs.PathUtilsMisc proofs.PathUtilsEllipse proofs.PathUtilsInst.
+  proofs.PathUtilsSimplify proofs.PathUtilsRdp proofs.PathUtilsMisc proofs.PathUtilsEllipse proofs.PathUtilsNoNan
+  proofs.PathUtilsInst.
 Import ListNotations.
 
 (* ---------------------------------------------------------------- TrimCollinear *)
@@ -14,17 +18,12 @@ Theorem C20_trim_subseq : forall p is_open, exists r, trim_collinear p is_open =
 Proof. exact trim_total_subseq. Qed.
 Print Assumptions C20_trim_subseq.
 
-(* open paths keep both end points; missing: the open path of two equal points (refuted below) *)
-Theorem C20_trim_open_keeps_ends_partial : forall p,
-  (2 <= length p)%nat -> (forall a, p <> [a; a]) ->
+(* open paths keep both end points (a single point is not a path: TrimCollinear returns the empty path for it) *)
+Theorem C20_trim_open_keeps_ends : forall p,
+  (2 <= length p)%nat ->
   exists r, trim_collinear p true = Ok r /\ keeps_ends r p = true.
 Proof. exact trim_open_keeps_ends. Qed.
-Print Assumptions C20_trim_open_keeps_ends_partial.
-
-Theorem C20_trim_open_keeps_ends_refuted :
-  exists p, length p = 2%nat /\ trim_collinear p true = Ok [] /\ keeps_ends [] p = false.
-Proof. exact trim_open_keeps_ends_refuted. Qed.
-Print Assumptions C20_trim_open_keeps_ends_refuted.
+Print Assumptions C20_trim_open_keeps_ends.
 
 (* the signed area of a closed path is preserved exactly, for every input *)
 Theorem C20_trim_area : forall p, exists r, trim_collinear p false = Ok r /\ area2 r = area2 p.
@@ -48,13 +47,19 @@ Theorem C20_simplify_safe_generic : forall D d2 ltD dmax dzero p (e : D) closed,
 Proof. exact simplify_safe. Qed.
 Print Assumptions C20_simplify_safe_generic.
 
-(* open paths keep both end points; missing: epsilon^2 >= MAX_DBL (epsilon >= 1.34e154), which needs
-   PerpendicDistFromLineSqrd < MAX_DBL *)
-Theorem C20_simplify_open_keeps_ends_partial : forall p eps,
-  (2 <= length p)%nat -> (fsqr eps <? MAX_DBL)%float = true ->
+(* open paths keep both end points, for every epsilon other than NaN (0 <= epsilon^2; +inf included) *)
+Theorem C20_simplify_open_keeps_ends : forall p eps,
+  (2 <= length p)%nat -> (0 <=? fsqr eps)%float = true ->
   exists r, simplify_path p eps false = Ok r /\ keeps_ends r p = true.
 Proof. exact simplify_path_open_keeps_ends. Qed.
-Print Assumptions C20_simplify_open_keeps_ends_partial.
+Print Assumptions C20_simplify_open_keeps_ends.
+
+(* the tolerance the loop works with is epsilon^2 unless that exceeds MAX_DBL / 2 (epsilon > 9.4e153) *)
+Theorem C20_simplify_eps_clamp : forall eps,
+  ((HALF_MAX_DBL <? fsqr eps)%float = false -> simp_eps_sqr eps = fsqr eps) /\
+  ((0 <=? fsqr eps)%float = true -> (simp_eps_sqr eps <? MAX_DBL)%float = true).
+Proof. exact (fun eps => conj (simp_eps_sqr_id eps) (simp_eps_sqr_lt_max eps)). Qed.
+Print Assumptions C20_simplify_eps_clamp.
 
 (* ---------------------------------------------------------------- RamerDouglasPeucker *)
 Theorem C20_rdp_subseq : forall p eps r, rdp_path p eps = Ok r -> sublist r p.
@@ -66,32 +71,47 @@ Theorem C20_rdp_safe : forall p eps, (0 <=? fsqr eps)%float = true -> exists r, 
 Proof. exact rdp_path_safe. Qed.
 Print Assumptions C20_rdp_safe.
 
-Theorem C20_rdp_keeps_first : forall p eps, (0 <=? fsqr eps)%float = true -> (1 <= length p)%nat ->
-  exists r, rdp_path p eps = Ok r /\ hd_pt r = hd_pt p.
-Proof. exact rdp_path_keeps_first. Qed.
-Print Assumptions C20_rdp_keeps_first.
-
-(* both end points are kept when no earlier vertex coincides with the last one; missing: paths whose last vertex
-   occurs earlier -- refuted for first == last below *)
-Theorem C20_rdp_keeps_ends_partial : forall p eps, (0 <=? fsqr eps)%float = true -> (2 <= length p)%nat ->
-  (forall i a, (i < length p - 1)%nat -> nth_error p i = Some a -> nth_error p (length p - 1) <> Some a) ->
+(* the first and the last vertex are kept, for every path (first == last and all-equal paths included) *)
+Theorem C20_rdp_keeps_ends : forall p eps, (0 <=? fsqr eps)%float = true ->
   exists r, rdp_path p eps = Ok r /\ keeps_ends r p = true.
-Proof. exact rdp_path_keeps_ends_partial. Qed.
-Print Assumptions C20_rdp_keeps_ends_partial.
+Proof. exact rdp_path_keeps_ends. Qed.
+Print Assumptions C20_rdp_keeps_ends.
 
-Theorem C20_rdp_keeps_ends_refuted :
-  exists p eps, (2 <= length p)%nat /\ (0 <=? eps)%float = true /\
-    exists r, rdp_path p eps = Ok r /\ keeps_ends r p = false.
-Proof. exact rdp_keeps_ends_refuted. Qed.
-Print Assumptions C20_rdp_keeps_ends_refuted.
+(* every removed vertex has a kept vertex before and after it and is within epsilon of the line through the nearest
+   ones ([rdp_bad_f] lists the removed vertices for which that fails) -- distance and comparison as the code computes
+   them: PerpendicDistFromLineSqrd <= epsilon^2 in binary64.  Hypothesis: no NaN distance between vertices of the path
+   (the model's coordinates are unbounded integers; see C20_rdp_bound_i64 for int64 coordinates). *)
+Theorem C20_rdp_bound : forall p eps fl, (0 <=? fsqr eps)%float = true ->
+  (forall a b c, In a p -> In b p -> In c p -> not_nan (perp_d2 a b c) = true) ->
+  rdp_path_flags p eps = Ok fl -> rdp_bad_f p fl eps = [].
+Proof. exact rdp_path_bound. Qed.
+Print Assumptions C20_rdp_bound.
 
-(* "every removed vertex is within epsilon of the line through its two surviving neighbours" is false of the code:
-   (0,0)(10,10)(20,0)(30,10)(40,0)(0,0), epsilon 1 removes (40,0) and (0,0) *)
-Theorem C20_rdp_bound_refuted :
-  exists p eps, (0 <=? eps)%float = true /\
-    exists fl, rdp_path_flags p eps = Ok fl /\ rdp_bad_f p fl eps <> [].
-Proof. exact rdp_bound_refuted. Qed.
-Print Assumptions C20_rdp_bound_refuted.
+(* ... discharged for every path with int64 coordinates, i.e. every path the real code can be given *)
+Theorem C20_rdp_bound_i64 : forall p eps fl, (0 <=? fsqr eps)%float = true ->
+  (forall q, In q p -> in_i64 (px q) = true /\ in_i64 (py q) = true) ->
+  rdp_path_flags p eps = Ok fl -> rdp_bad_f p fl eps = [].
+Proof. exact rdp_path_bound_i64. Qed.
+Print Assumptions C20_rdp_bound_i64.
+
+(* PerpendicDistFromLineSqrd of int64 points is never NaN (no overflow: the intermediate values stay below 2^259) *)
+Theorem C20_perp_dist_not_nan : forall p l1 l2 : pt,
+  (Z.abs (px p - px l1) <= 2 ^ 64)%Z -> (Z.abs (py p - py l1) <= 2 ^ 64)%Z ->
+  (Z.abs (px l2 - px l1) <= 2 ^ 64)%Z -> (Z.abs (py l2 - py l1) <= 2 ^ 64)%Z ->
+  not_nan (perp_d2 p l1 l2) = true.
+Proof. exact perp_d2_not_nan. Qed.
+Print Assumptions C20_perp_dist_not_nan.
+
+(* the same for any distance type: a total preorder on the non-NaN values is all the argument needs *)
+Theorem C20_rdp_bound_generic : forall D d2 leD (dzero : D) p eps,
+  leD dzero eps = true -> leD dzero dzero = true ->
+  (forall a b c, leD a b = true -> leD b c = true -> leD a c = true) ->
+  (forall a b, leD a a = true -> leD b b = true -> leD a b = false -> leD b a = true) ->
+  (forall a b c, In a p -> In b p -> In c p -> leD (d2 a b c) (d2 a b c) = true) ->
+  (forall x a, In x p -> In a p -> leD (d2 x a x) eps = true) ->
+  forall fl, (5 <= length p)%nat -> rdp_flags D d2 leD dzero p eps = Ok fl -> rdp_bad D d2 leD p fl eps = [].
+Proof. exact rdp_bound_gen. Qed.
+Print Assumptions C20_rdp_bound_generic.
 
 (* ---------------------------------------------------------------- defining equations *)
 (* StripDuplicates: std::unique (identity on duplicate-free lists, collapses a repeated neighbour) + closing pops *)
